@@ -299,6 +299,21 @@ func check(x *explore.Exec, sc *Scn, r *result) {
 		if len(r.upGot) != sc.Conns {
 			x.Fail("proxy-connection-count", "%d upstream connections for %d clients; %s", len(r.upGot), sc.Conns, desc())
 		}
+		if sc.Policy == "round_robin" && len(r.upGot) == sc.Conns {
+			// simultaneous selections are still a rotation: k selections over m available
+			// upstreams are k consecutive positions of the cycle, whatever the interleaving
+			per := map[string]int{"10.0.0.10:80": 0, "10.0.0.11:80": 0}
+			for k := range r.upGot {
+				per[k[:12]]++
+			}
+			lo, hi := sc.Conns, 0
+			for _, n := range per {
+				lo, hi = min(lo, n), max(hi, n)
+			}
+			if hi-lo > 1 {
+				x.Fail("round-robin-not-a-rotation", "%d simultaneous connections through round_robin over 2 available upstreams were distributed %v (a selection was lost between two connections); %s", sc.Conns, per, desc())
+			}
+		}
 	}
 	var ks []string
 	for k := range r.upGot {
